@@ -479,7 +479,7 @@ PARTS = [
     Part("deserialiser-failures", "enum", check, cases=serde_failure_cases, exhaustive=True),
     Part("fractional-idle-timeouts", "enum", check, cases=fractional_idle_cases, exhaustive=True),
     Part("random-histories", "hyp", check, strategy=history_strategy,
-         examples={"quick": 300, "thorough": 12000}, shards={"quick": 4, "thorough": 16}),
+         examples={"quick": 300, "thorough": 4000}, shards={"quick": 4, "thorough": 16}),
 ]
 
 
